@@ -234,6 +234,6 @@ impl Prop for Inverts {
 
 pub fn run(env: &mut Env) {
     let t = env.thorough();
-    env.run_random::<Since>(if t { 20_000_000 } else { 1_000_000 });
-    env.run_random::<Inverts>(if t { 10_000_000 } else { 500_000 });
+    env.run_random::<Since>(if t { 20_000_000 } else { 3_000_000 });
+    env.run_random::<Inverts>(if t { 10_000_000 } else { 1_500_000 });
 }
